@@ -185,11 +185,16 @@ impl Parser {
         // cache previous function state and set to true temporarily, since we're in a
         let function_scope_state_cache = self.in_function_scope;
         self.in_function_scope = true;
+        // a loop around the declaration is not a loop of the body
+        let loop_scope_state_cache = self.in_loop_scope;
+        self.in_loop_scope = false;
 
         // parse the body of the function
-        let body = self.statement()?;
-        // restore the previous function scope state
+        let body = self.statement();
+        // restore the previous function and loop scope state
         self.in_function_scope = function_scope_state_cache;
+        self.in_loop_scope = loop_scope_state_cache;
+        let body = body?;
 
         Ok(Stmt::ProcDeclaration(Arc::new(ProcDeclaration {
             name,
